@@ -234,7 +234,7 @@ func H_C14_RouterAddress() {
 //verif:witness roundtrip rejected
 func H_C14_LeaseSet2() {
 	_, pub := nd.Ed25519Key()
-	dest, _, derr := destination.ReadDestination(identityBytes(4, pub))
+	dest, _, derr := destination.ReadDestination(identityBytesX(4, pub, []int{0, 3}[nd.IntRange(0, 1)]))
 	nd.Assume(derr == nil)
 	flags := nd.Uint16()
 	nk := []int{0, 1, 2, 16, 17}[nd.IntRange(0, 4)]
@@ -352,7 +352,8 @@ func H_C14_EncryptedLeaseSet() {
 //verif:witness roundtrip rejected
 func H_C14_LeaseSet() {
 	priv, pub := nd.Ed25519Key()
-	dest, _, derr := destination.ReadDestination(identityBytes(0, pub))
+	// the destination's key certificate may carry excess payload (accepted by every constructor and parser)
+	dest, _, derr := destination.ReadDestination(identityBytesX(0, pub, []int{0, 3}[nd.IntRange(0, 1)]))
 	nd.Assume(derr == nil)
 	encKey, kerr := dest.PublicKey()
 	nd.Assume(kerr == nil)
@@ -397,7 +398,7 @@ func H_C14_LeaseSet() {
 //verif:witness roundtrip
 func H_C14_RouterInfo() {
 	priv, pub := nd.Ed25519Key()
-	ident, _, err := router_identity.ReadRouterIdentity(identityBytes(4, pub))
+	ident, _, err := router_identity.ReadRouterIdentity(identityBytesX(4, pub, []int{0, 3}[nd.IntRange(0, 1)]))
 	nd.Assume(err == nil)
 	var addrs []*router_address.RouterAddress
 	na := nd.IntRange(0, 1)
